@@ -403,8 +403,8 @@ func IntType(dialect string) string {
 	return "integer"
 }
 
-// permute reorders tables, columns, indexes, FKs and checks of a built graph (declaration order only).
-func permute(s *schema.Schema, seed int64) {
+// Permute reorders tables, columns, indexes, FKs and checks of a built graph (declaration order only).
+func Permute(s *schema.Schema, seed int64) {
 	r := uint64(seed)*6364136223846793005 + 1442695040888963407
 	next := func(n int) int {
 		r = r*6364136223846793005 + 1442695040888963407
@@ -456,7 +456,7 @@ func checkCase(c Case) (Outcome, error) {
 		return out, fmt.Errorf("harness: build edited: %v", err)
 	}
 	if c.Perm != 0 {
-		permute(to, c.Perm)
+		Permute(to, c.Perm)
 	}
 	differ := gm.Differ(c.Dialect)
 	var changes []schema.Change
